@@ -333,6 +333,9 @@ func checkC18(c *Ctx) {
 
 	// ---- R4 flags and enum decoding
 	checkRoundTripWiring(c, gen, scan)
+	// the scanner reads the json tags the generator writes: name first, options after it
+	checkJSONTags(c, "C18.R4.json-tags", scan)
+	checkExclusiveMarkers(c, ev)
 }
 
 // regexpSourceOf reconstructs the regexp source of a tagger construction.
@@ -509,5 +512,31 @@ func checkRoundTripWiring(c *Ctx, gen, scan *packages.Package) {
 		})
 		c.Check(hasJSON, rule, "codescan.parseEnum › list decoded with json.Unmarshal", c.posOf(scan, fd.Pos()), "JSON array", "the enum list is not decoded as a JSON array although the generator writes `json .Enum`")
 		c.Check(hasUnquote, rule, "codescan.parseEnum › elements unquoted with strconv.Unquote / JSON", c.posOf(scan, fd.Pos()), "escape sequences decoded", "enum elements are not JSON-unquoted: values containing <, >, &, quotes or backslashes come back as their escape text")
+	}
+}
+
+var boundMarkerRx = regexp.MustCompile(`(Minimum|Maximum): ([<>]) `)
+
+// checkExclusiveMarkers: in every doc-comment template the `> ` / `< ` marker that the scanner
+// reads as exclusiveMinimum / exclusiveMaximum is emitted under the flag of the same bound.
+func checkExclusiveMarkers(c *Ctx, ev *tmpl.Evaluator) {
+	rule := "C18.R1.exclusive-markers"
+	c.Rule(rule, "`Minimum: > ` is emitted under .ExclusiveMinimum and `Maximum: < ` under .ExclusiveMaximum, in every template that writes validation doc comments", 4)
+	for _, tn := range ev.F.Names() {
+		l := linearOf(c, ev, tn)
+		k := 0
+		for _, m := range boundMarkerRx.FindAllStringSubmatchIndex(l.Text, -1) {
+			k++
+			bound, marker := l.Text[m[2]:m[3]], l.Text[m[4]:m[5]]
+			gs := l.GuardsAt(m[4])
+			inner := ""
+			if len(gs) > 0 && gs[len(gs)-1].Kind == "if" {
+				inner = strings.TrimSpace(gs[len(gs)-1].Pipe)
+			}
+			wantMarker := map[string]string{"Minimum": ">", "Maximum": "<"}[bound]
+			ok := marker == wantMarker && inner == ".Exclusive"+bound
+			c.Check(ok, rule, fmt.Sprintf("%s › %s › %s exclusive marker #%d", l.Tree.Asset, tn, bound, k), l.Tree.PosStr(l.PosAt(m[4])), "`"+wantMarker+" ` under .Exclusive"+bound,
+				fmt.Sprintf("the `%s ` marker of the %s doc line is emitted under `%s`: a rescanned model gets the exclusive flag of the other bound", marker, bound, inner))
+		}
 	}
 }
